@@ -83,9 +83,6 @@ pub fn layout(bytes: &[u8]) -> Value {
         }).collect::<Vec<_>>()})
     })
 }
-pub fn note(v: Value) {
-    with(|c| c.events.push(v));
-}
 pub fn dump() -> Value {
     with(|c| c.dump())
 }
